@@ -634,3 +634,8 @@ H("C18", "shpk", "c18_shader_package_dangling_aliases", tier="quick", unwind=20,
 for n, t in (("one_byte_longer_than_file", "quick"), ("as_long_as_whole_file", "quick"), ("between", "thorough")):
     H("C17", "gearsets", "c17_gearsets_body_" + n, tier=t, unwind=24, timeout=600, bounds="20-byte file: gear-set tag, content size concrete (" + n + ": the body would need more than the 3 bytes present), all other bytes symbolic",
       encodes=["gearsets::GearSets::from_existing", "dat::DatHeader (BinRead)"])
+H("C15", "equipment", "c15_deconstruct_concrete_all_slots", unwind=24, timeout=600, bounds="the ten file names c0201e0038_<slot>.mdl (concrete): id 38 and the slot read back",
+  encodes=["equipment::deconstruct_equipment_path", "equipment::get_slot_from_abbreviation"], stubs=["core::slice::memchr::memrchr / memchr_aligned -> naive scans"])
+H("C14", "mtrl", "c14_material_with_dawntrail_dye_table_5f", tier="quick", unwind=40, timeout=1200, cbmc_args=FS1K, kani_args=["--no-assertion-reach-checks"],
+  bounds="216-byte material: table flags 0x5F8 (dye table, dimension logs 0x5F, no colour table), 128 dye table bytes symbolic, the rest as the minimal material",
+  encodes=["mtrl::Material::from_existing", "mtrl::parse_color_dye_table", "mtrl::MaterialData (BinRead)"], stubs=["core::str::validations::run_utf8_validation -> ASCII-only model"])
